@@ -177,6 +177,26 @@ impl C06 {
         if let Some(d) = tree_diff(&b, &a) {
             return Err(fail("later_behaviour", "twin-diverged", format!("states diverged: {d}")));
         }
+        // ... and what the two say about the past (a failed first call of a fresh actor closes an empty transaction later on,
+        // which removes the actor again: caches keyed by actor index must survive that)
+        if w.reps[r].doc.pending_ops() == 0 && sh.doc.pending_ops() == 0 {
+            for k in 0..2u32 {
+                if let Some(hs) = w.pick_heads(r, w.cfg.p1.wrapping_add(step as u32).wrapping_mul(40503).wrapping_add(k)) {
+                    if hs.is_empty() {
+                        continue;
+                    }
+                    w.stats.bump("probe.twin_historical_read");
+                    let a = observe(&w.reps[r].doc, Some(&hs)).map_err(|e| fail("later_behaviour", "read-inconsistency", e.0.clone()))?;
+                    let b = observe(&sh.doc, Some(&hs));
+                    // the twin may lack heads the document got later through events it could not follow: compare only if it reads
+                    if let Ok(b) = b {
+                        if let Some(d) = tree_diff(&b, &a) {
+                            return Err(fail("later_behaviour", "twin-diverged-at-earlier-heads", format!("states at earlier heads ({} head(s)) diverged: {d}", hs.len())));
+                        }
+                    }
+                }
+            }
+        }
         if w.reps[r].doc.pending_ops() == 0 && sh.doc.pending_ops() == 0 {
             w.stats.bump("probe.final_reload");
             let b1 = save_bytes(&mut w.reps[r].doc);
